@@ -28,6 +28,15 @@ def obligations(ctx):
                             obs.append(g.vec_ob(op, var, nn, rsz, asz, bsz, so, avx, pmode=0, p=pv))
                         else:
                             obs.append(g.vec_ob(op, var, nn, rsz, asz, bsz, so, avx))
+    # the same size semantics when the output is one of the inputs (zero extension / truncation of an in-place call): copy, negate, add, sub with
+    # res==a, rotate / automorphism in place with p symbolic (identity rotations p = 0 mod 2N included), small and big forms
+    for (op, var) in ((1, 0), (2, 0), (3, 0), (4, 0)):
+        for (rsz, asz, bsz) in ((3, 1, 2), (1, 3, 0), (2, 0, 1), (0, 2, 2)):
+            obs.append(g.vec_ob(op, var, 2, rsz, asz, bsz if op in (3, 4) else 0, (0, 0, 0), (rsz + asz) % 2, alias=1, tag="inplace/"))
+    for (op, var) in ((5, 0), (6, 0), (5, 1), (6, 1)):
+        for (rsz, asz) in ((2, 1), (3, 1), (1, 3), (2, 0)):
+            so = (1, 1, 0) if var == 0 else (0, 0, 0)
+            obs.append(g.vec_ob(op, var, 2, rsz, asz, 0, so, avx=(rsz + asz) % 2, alias=1, pmode=1, tag="inplace/", timeout=600 if ctx.quick else 3000))
     # N=8 (two AVX iterations) on a reduced size set, large stride with sparse buffers is thorough only
     for (op, var) in ((3, 0), (4, 0), (2, 0), (1, 0), (0, 0)):
         for (rsz, asz, bsz) in [s for s in g.sizes_for(op, 2)]:
@@ -53,7 +62,7 @@ def check(ctx, only=None, list_only=False):
         "bounds": "limb counts 0..3 (0..4 thorough) in ALL orderings of (res,a,b); strides N..N+3 (rotating combination per shape in quick, all 3 "
                   "combinations thorough); N in {2,4} (+8 on sizes 0..2; thorough adds 8,16); both dispatch flags; rotation/automorphism wrappers with concrete p from a 5-value set "
                   "(every p is decided in C09); all coefficient values symbolic 64-bit",
-        "outside": "limb counts > 3 (4), N > 8 (16), strides > N+3, NTT120 module type for big variants (the library has none)",
+        "outside": "limb counts > 3 (4), N > 8 (16), strides > N+3, in-place calls beyond the listed slice (all aliasing patterns are C13), NTT120 module type for big variants (the library has none)",
         "assumptions": ["malloc never fails", "buffers are exactly-sized heap objects (size-1)*stride+N words",
                         "module table from the real fill_virtual_table with CPU detection replaced by a flag; table builders not run"],
     }
